@@ -56,7 +56,9 @@ def total_variation(sh):
 def judge(case, ctx, prefix='C08'):
     from CircuitCalculator.SignalProcessing import periodic_functions as pfm
     if case['kind'] == 'lookup':
-        for name in WAVES:
+        import json as _json
+        for name0 in WAVES:
+          for name in (name0, ''.join(list(name0)), _json.loads(_json.dumps({'w': name0}))['w'], (' ' + name0).strip()):      # a name read from a file is an equal, not the identical, string
             cls = call(pfm.periodic_function, name)
             if raised(cls):
                 ctx.violation(f'{prefix}/lookup/raised', f'periodic_function({name!r}) raised {cls.text}', {})
@@ -100,6 +102,14 @@ def judge(case, ctx, prefix='C08'):
         yi_, yf_ = np.asarray(yi, dtype=float).reshape(-1), np.asarray(yf, dtype=float).reshape(-1)
         if yi_.shape != yf_.shape or float(np.max(np.abs(yi_ - yf_))) > 1e-9 * (abs(A) + abs(off) + 1e-300):
             ctx.violation(f'{prefix}/time-function/depends-on-the-number-type-of-t/{wave}', f'{wave} (A={A!r}, offset={off!r}, T={T!r}): integer-typed instants give {yi_[:4].tolist()!r}, the same instants as floats {yf_[:4].tolist()!r}', {})
+    # instants on the edges and corners of the waveform (quarter periods, exact for phase 0): every value lies between the two extremes
+    te = np.array([0.0, T / 4, T / 2, 3 * T / 4, T, 1.5 * T, 2 * T])
+    ye = call(pf.time_function, te)
+    ctx.count('edge_instants_checked')
+    if not raised(ye) and wave != 'const':          # (the constant waveform is its amplitude; it has no extremes around an offset)
+        ye_ = np.asarray(ye, dtype=float).reshape(-1)
+        if not np.all(np.isfinite(ye_)) or float(np.max(np.abs(ye_ - off))) > abs(A) * (1 + 1e-9) + 1e-300:
+            ctx.violation(f'{prefix}/time-function/value-outside-the-waveform-range/{wave}', f'{wave} (A={A!r}, offset={off!r}, T={T!r}, phase={ph!r}): values {ye_.tolist()!r} at quarter-period instants leave [offset - |A|, offset + |A|]', {})
     sh = fourier.recognise(pf.time_function, T, ph)
     if sh.kind == 'unknown':
         ctx.count('shape_unknown')
